@@ -117,6 +117,17 @@ CLAIMED = {
             "itself walks the fitted tree from per-node comparisons and checks decision_path, predict_proba, predict.",
             "exact ties with the threshold are exercised through a lookup stub classifier; for real learners near-ties "
             "(1e-9) are skipped; min_samples_leaf is modelled as the code applies it (node size)."),
+    "C09": ("DESIGN 4/C09",
+            "TLA+ spec Criterion (cursor protocol with stored side weights; exact rational mean / MSE / linear-fit RSS / "
+            "proxy / improvement): TLC model checking incl. a negative run + trace validation of the compiled criteria "
+            "through their _test_criterion_* accessors and of per-leaf predictions",
+            "TLC checks that the stored weights (hence impurity_improvement) are a function of (start,pos,end) for every "
+            "data vector and call sequence in the bound; the three compiled criteria are driven through an exhaustive "
+            "sweep of triples (boundaries included) and random call histories, every result projected to a rational and "
+            "compared exactly with the specification; PiecewiseTreeRegressor predictions are compared with per-leaf least "
+            "squares / means over the rows tree_.apply puts in the leaf, with max_depth and min_samples_leaf.",
+            "one feature for the linear fit; rank-deficient ranges/leaves not claimed; projection = nearest rational with "
+            "denominator <= 1e6 within 1e-9."),
 }
 
 PENDING_REASON = "check not built yet in this round (planned: see DESIGN.md section 4); not claimed until it runs"
